@@ -1104,6 +1104,41 @@ class Coverage:
         return out
 
 
+class ClassV:
+    """A class of the analysed package, as a value (by reference name)."""
+
+    def __init__(self, qualname):
+        self.qualname = qualname
+
+    def __eq__(self, o):
+        return isinstance(o, ClassV) and o.qualname == self.qualname
+
+    def __hash__(self):
+        return hash(('ClassV', self.qualname))
+
+    def __repr__(self):
+        return self.qualname.rsplit('.', 1)[-1]
+
+
+class Inst:
+    """A fresh instance of a package class: which class, constructed with which arguments."""
+
+    def __init__(self, cls, args=(), kwargs=()):
+        self.cls = cls
+        self.args = tuple(args)
+        self.kwargs = tuple(sorted(kwargs))
+
+    def __eq__(self, o):
+        return isinstance(o, Inst) and (o.cls, o.args, o.kwargs) == (self.cls, self.args, self.kwargs)
+
+    def __hash__(self):
+        return hash(('Inst', self.cls))
+
+    def __repr__(self):
+        a = [repr(x) for x in self.args] + [f'{k}={v!r}' for k, v in self.kwargs]
+        return f'{self.cls!r}({", ".join(a)})'
+
+
 class Tok:
     """An uninterpreted constant named by its source text (csv.QUOTE_MINIMAL)."""
 
@@ -1138,6 +1173,7 @@ class Conc:
         self.depth = 0
         self.attrs = {}         # (object path, attribute) -> value stored by the evaluated code
         self.cov = cov if cov is not None else Coverage()
+        self.consts = {}        # (module, name) -> value of a module-level constant
 
     def getattr(self, o, name, *default):
         self.trace.append((repr(o), name))
@@ -1159,7 +1195,7 @@ class Conc:
             raise Undecided(f'{self.where}: truth value of the uninterpreted constant {v!r}')
         if v is None or isinstance(v, (bool, int, str, list, tuple, dict)):
             return bool(v)
-        if isinstance(v, type):
+        if isinstance(v, (type, ClassV, Inst)):
             return True
         raise Undecided(f'{self.where}: truth value of {v!r}')
 
@@ -1171,6 +1207,26 @@ class Conc:
                 return env[e.id]
             if e.id in self.TYPES:
                 return self.TYPES[e.id]
+            if self.model is not None and self.module is not None:
+                r = self.model.resolve(self.module, e)
+                if r in self.model.classes:
+                    return ClassV(r)
+                if r is not None and '.' in r:
+                    # a module-level constant (a dispatch table ...): evaluated through its definition, once
+                    mq, attr = r.rsplit('.', 1)
+                    mod = self.model.modules.get(mq)
+                    if mod is not None and attr in mod.assigns and self.depth < 3:
+                        if (mq, attr) not in self.consts:
+                            rebound = sum(1 for n in ast.walk(mod.tree) if isinstance(n, ast.Name) and n.id == attr and isinstance(n.ctx, (ast.Store, ast.Del)))
+                            if rebound != 1:
+                                raise Undecided(f'{self.where}: module-level name {attr!r} of {mq} is bound {rebound} times')
+                            saved = self.module
+                            self.module, self.depth = mod, self.depth + 1
+                            try:
+                                self.consts[(mq, attr)] = self.ev(mod.assigns[attr], {})
+                            finally:
+                                self.module, self.depth = saved, self.depth - 1
+                        return self.consts[(mq, attr)]
             raise Undecided(f'{self.where}: name {e.id!r} is not a local the rule can evaluate')
         if isinstance(e, ast.UnaryOp) and isinstance(e.op, ast.Not):
             return not self.truth(self.ev(e.operand, env))
@@ -1198,9 +1254,9 @@ class Conc:
                 right = self.ev(r, env)
                 t = type(op).__name__
                 if t == 'Is':
-                    ok = left is right or (isinstance(left, PObj) and left == right)
+                    ok = left is right or (isinstance(left, (PObj, ClassV)) and left == right)
                 elif t == 'IsNot':
-                    ok = not (left is right or (isinstance(left, PObj) and left == right))
+                    ok = not (left is right or (isinstance(left, (PObj, ClassV)) and left == right))
                 elif t == 'Eq':
                     ok = left == right
                 elif t == 'NotEq':
@@ -1244,6 +1300,8 @@ class Conc:
             if isinstance(l, int) and isinstance(r, int):
                 return l + r if isinstance(e.op, ast.Add) else l - r
             raise Undecided(f'{self.where}: arithmetic {u(e)[:60]}')
+        if isinstance(e, ast.JoinedStr):
+            return '<formatted text>'
         if isinstance(e, ast.Call):
             return self.call(e, env)
         if isinstance(e, ast.Attribute):
@@ -1267,7 +1325,7 @@ class Conc:
         raise Undecided(f'{self.where}: expression the rule cannot evaluate: {u(e)[:60]}')
 
     def key(self, k, node):
-        if isinstance(k, (str, int, Tok)) or k is None:
+        if isinstance(k, (str, int, Tok, ClassV)) or k is None:
             return k
         raise Undecided(f'{self.where}: dict key {k!r} in {u(node)[:60]}')
 
@@ -1307,6 +1365,14 @@ class Conc:
 
     def call(self, e, env):
         f = e.func
+        if not any(isinstance(a, ast.Starred) for a in e.args) and all(k.arg for k in e.keywords) and (
+                (isinstance(f, ast.Name) and (f.id in env or (f.id not in self.TYPES and self.model is not None and self.model.resolve(self.module, f) in self.model.classes)))
+                or isinstance(f, (ast.Subscript, ast.IfExp))):
+            fv = self.ev(f, env)
+            if isinstance(fv, ClassV):      # instantiation of a package class: a fresh instance, remembered with its arguments
+                return Inst(fv, [self.ev(a, env) for a in e.args], [(k.arg, self.ev(k.value, env)) for k in e.keywords])
+            if not isinstance(f, ast.Name):
+                raise Undecided(f'{self.where}: call of the value {fv!r} in {u(e)[:60]}')
         if isinstance(f, ast.Name) and f.id == 'dict' and f.id not in env and len(e.args) <= 1 and not any(isinstance(a, ast.Starred) for a in e.args):
             d = {}
             for src in [self.ev(a, env) for a in e.args] + [self.ev(k.value, env) for k in e.keywords if k.arg is None]:
@@ -1454,6 +1520,11 @@ class Conc:
                     self.run(s.orelse, env)
             elif isinstance(s, ast.Return):
                 raise _Ret(None if s.value is None else self.ev(s.value, env))
+            elif isinstance(s, ast.Raise) and s.exc is not None:
+                x = s.exc.func if isinstance(s.exc, ast.Call) else s.exc
+                if not isinstance(x, (ast.Name, ast.Attribute)):
+                    raise Undecided(f'{self.where}: raise of {u(s.exc)[:60]}')
+                raise _Raise(u(x))
             elif isinstance(s, ast.Break):
                 raise _Brk()
             elif isinstance(s, ast.Continue):
@@ -1661,7 +1732,7 @@ def check_csv(ctx):
     ih = list_image(gh)
     ir = list_image(gr)
     okgh = ih['wrapper'] is None and not ih['ifs'] and u(ih['iter']) in table and u(ih['elt']) in component(ih, 0)
-    okgr = ir['wrapper'] is None and not ir['ifs'] and u(ir['iter']) in table and isinstance(ir['elt'], ast.Call) and m.resolve(gr.module, ir['elt'].func) == fg.qualname
+    okgr = ir['wrapper'] is None and not ir['ifs'] and u(ir['iter']) in table and isinstance(ir['elt'], ast.Call) and m.resolve(gr.module, ir['elt'].func) in (f'{R}.getattr_nested', fg.qualname)
     cell = None
     path_dev = None
     if okgr:
@@ -2086,6 +2157,30 @@ def check_archive(ctx):
                 expected='@attrs + attrib() fields', found=[k for k in ci.annotations if k not in ci.class_attrs], stmt=f'attrs {ci.name}')
 
 
+def format_table(m, fx, domain):
+    """get_exporter evaluated on a finite domain of format arguments -> {argument: ('return', value) | ('raise', exception name)}.
+    The evaluation is bounded, so the caller applies the coverage side-condition (a statement never reached / a test with one outcome on
+    which code hangs => Undecided) when it finds no deviation.  -> (table, uncovered)"""
+    a = fx.node.args
+    if len(fx.params()) != 1 or a.vararg or a.kwarg:
+        raise Undecided(f'get_exporter: unexpected signature {fx.params()}')
+    cov = Coverage()
+    cov.enter(fx)
+    out = {}
+    for arg in domain:
+        c = Conc(None, 'get_exporter', model=m, module=fx.module, cov=cov)
+        try:
+            c.run(fx.node.body, {fx.params()[0]: arg})
+            out[arg] = ('return', None)
+        except _Ret as r:
+            out[arg] = ('return', r.v)
+        except _Raise as r:
+            out[arg] = ('raise', r.kind)
+        except (_Brk, _Cont):
+            raise Undecided('get_exporter: break / continue outside a loop')
+    return out, cov.uncovered()
+
+
 def check_scalars(ctx):
     rep, m = ctx.rep, ctx.model
     jm = m.module('gambit.util.json')
@@ -2118,13 +2213,12 @@ def check_scalars(ctx):
     rep.add('E6', fd.site(), 'to_json is the shared converter\'s unstructure', len(rr) == 1 and u(rr[0].value) == f'converter.unstructure({fd.params()[0]})', expected='converter.unstructure(obj)', found=[u(r.value) for r in rr], stmt='to_json')
     fx = m.func('gambit.cli.query.get_exporter')
     rep.functions.add(fx.qualname)
-    gmx = guard_map(fx.node)
-    tbl = {}
-    for r in [s for s in stmts_in(fx.node.body) if isinstance(s, ast.Return)]:
-        for a in path_atoms(gmx[r]):
-            if a[0] == 'eq' and fx.params()[0] in a:
-                tbl[(a[1] if a[2] == fx.params()[0] else a[2]).strip("'")] = u(r.value)
-    rep.add('E3', fx.site(), 'the command maps each format name to its exporter', tbl == {'csv': 'CSVResultsExporter()', 'json': 'JSONResultsExporter()', 'archive': 'ResultsArchiveWriter()'}, expected='csv/json/archive', found=tbl, stmt='format table')
+    want = {'csv': Inst(ClassV(f'{R}.CSVResultsExporter')), 'json': Inst(ClassV(f'{R}.JSONResultsExporter')), 'archive': Inst(ClassV(f'{R}.ResultsArchiveWriter'))}
+    tbl, unc = format_table(m, fx, list(want) + ['xml', '', 'CSV', None, 7])
+    bad = {k: v for k, v in tbl.items() if (v != ('return', want[k]) if k in want else v[0] != 'raise')}
+    if not bad and unc:     # a located deviation is reported as such; without one, code the domain never reaches cannot be vouched for
+        raise Undecided('get_exporter: the evaluated format names do not cover the code: ' + '; '.join(unc[:3]))
+    rep.add('E3', fx.site(), 'the command maps each format name to its exporter', not bad, expected={**{k: ('return', v) for k, v in want.items()}, 'anything else': ('raise', 'ValueError')}, found=bad or tbl, stmt='format table')
 
 
 def check(ctx):
@@ -2308,4 +2402,25 @@ VARIANTS += [
     V('json genome lineage without the genome\'s own taxon', 'B', _R, "genome.taxon.ancestors(incself=True)", "genome.taxon.ancestors(incself=False)", 'E4'),
     V('getattr_nested gives up on paths longer than four attributes (code the small domain would never reach)', 'B', _R, _NESTED_HEAD, _NESTED_HEAD + "\tif len(attrs) > 4:\n\t\treturn None\n", 'E3'),
     V('E: lineage flag passed positionally', 'E', _R, "genome.taxon.ancestors(incself=True)", "genome.taxon.ancestors(True)"),
+]
+
+# ---- third held-out corpus: a helper moved to another module and imported back (N13), the format if-chain as a dispatch table (decided by evaluation)
+_M = 'src/gambit/util/misc.py'
+_Q = 'src/gambit/cli/query.py'
+_NESTED_DEF = "def getattr_nested(obj, attrs: Union[str, Iterable[str]], pass_none=False):\n" + _NESTED
+_MOVED = "\n\ndef getattr_nested(obj, attrs, pass_none=False):\n\tif isinstance(attrs, str):\n\t\tattrs = attrs.split('.')\n\tfor attr in attrs:\n%s\treturn obj\n"
+_MISC_ANCHOR = "T = TypeVar('T')\n"
+_CHAIN = "\tif outfmt == 'csv':\n\t\treturn CSVResultsExporter()\n\n\tif outfmt == 'json':\n\t\treturn JSONResultsExporter()\n\n\tif outfmt == 'archive':\n\t\treturn ResultsArchiveWriter()\n\n\traise ValueError(f'Invalid output format: {outfmt!r}')\n"
+_TABLE = "\texporter_cls = EXPORTERS.get(outfmt) if %sisinstance(outfmt, str) else None\n\tif exporter_cls is None:\n\t\traise ValueError(f'Invalid output format: {outfmt!r}')\n\treturn exporter_cls()\n"
+_TABLE_DEF = "EXPORTERS = {\n\t'csv': CSVResultsExporter,\n\t'json': %s,\n\t'archive': ResultsArchiveWriter,\n}\n\n\ndef get_exporter(outfmt: str):\n"
+VARIANTS += [
+    V('E: getattr_nested moved to gambit.util.misc and imported back', 'E', _R, _NESTED_DEF, "from gambit.util.misc import getattr_nested\n",
+      also=((_M, _MISC_ANCHOR, _MISC_ANCHOR + _MOVED % "\t\tif pass_none and obj is None:\n\t\t\treturn None\n\t\tobj = getattr(obj, attr)\n"),)),
+    V('moved getattr_nested tests None after the step', 'B', _R, _NESTED_DEF, "from gambit.util.misc import getattr_nested\n", 'E3',
+      also=((_M, _MISC_ANCHOR, _MISC_ANCHOR + _MOVED % "\t\tobj = getattr(obj, attr)\n\t\tif pass_none and obj is None:\n\t\t\treturn None\n"),)),
+    V('E: format names through a dispatch table', 'E', _Q, _CHAIN, _TABLE % "", also=((_Q, "def get_exporter(outfmt: str):\n", _TABLE_DEF % "JSONResultsExporter"),)),
+    V('dispatch table maps json to the archive writer', 'B', _Q, _CHAIN, _TABLE % "", 'E3', also=((_Q, "def get_exporter(outfmt: str):\n", _TABLE_DEF % "ResultsArchiveWriter"),)),
+    V('dispatch table guarded by the inverted type test', 'B', _Q, _CHAIN, _TABLE % "not ", 'E3', also=((_Q, "def get_exporter(outfmt: str):\n", _TABLE_DEF % "JSONResultsExporter"),)),
+    V('if chain returns the archive writer for json', 'B', _Q, "\tif outfmt == 'json':\n\t\treturn JSONResultsExporter()\n", "\tif outfmt == 'json':\n\t\treturn ResultsArchiveWriter()\n", 'E3'),
+    V('if chain falls through without an exporter for archive', 'B', _Q, "\tif outfmt == 'archive':\n\t\treturn ResultsArchiveWriter()\n", "\tif outfmt == 'archive':\n\t\tpass\n", 'E3'),
 ]
